@@ -4,26 +4,27 @@
 (*                                                                                       *)
 (* Time is an integer number of units; Sizes[L] is the bucket width of level L in units   *)
 (* (Sizes[1] >= 2, each size divides the next), NB the number of buckets per level.        *)
-(* Bucket boundaries of level L are the multiples of Sizes[L]; a time is *interior* when    *)
-(* it is not a multiple of Sizes[1].  The property is only claimed for interior             *)
-(* observation and clock times (a time exactly on a boundary belongs to the bucket that     *)
-(* ends there for Add but to the one that starts there for Range - the documentation is     *)
-(* silent - so such histories are judged on Total only).                                   *)
+(* Bucket boundaries of level L are the multiples of Sizes[L].  BUCKET RULE: a bucket of     *)
+(* level L covers (end - Sizes[L], end], i.e. a time exactly on a boundary belongs to the    *)
+(* bucket that ENDS there - for observations, for the clock, and therefore for what an        *)
+(* aligned range reports: Range(a, b) with a, b on boundaries = the buckets between a and b   *)
+(* = the observations with a < t <= b (for times strictly inside buckets this is a <= t < b).  *)
+(* Times on boundaries are judged like all others (`clean` is only informational).           *)
 (*                                                                                       *)
 (*   obs    the observations so far, <<t, v>> in order of arrival                          *)
 (*   maxT   the latest time the series has been told about (an observation time or a       *)
 (*          clock reading taken by Latest); the retained window of level L ends at the      *)
 (*          first boundary of L at or after maxT and is NB buckets long                     *)
-(*   seen   something has been told;  clean   every time so far was interior               *)
+(*   seen   something has been told;  clean   every time so far was strictly inside a bucket *)
 (*                                                                                       *)
 (* Oracle:                                                                               *)
 (*   Total            = sum of all observations, always                                    *)
-(*   Range(a, b)      = sum of the observations with a <= t < b, judged when the finest      *)
+(*   Range(a, b)      = sum of the observations with a < t <= b, judged when the finest      *)
 (*                      level whose retained window contains a exists and both a and b are   *)
 (*                      boundaries of that level ("aligned to bucket boundaries", "within    *)
 (*                      the retained window")                                              *)
 (*   Latest(L, n)     = sum over the last n buckets of level L, i.e. WinEnd(L) - n*Sizes[L]  *)
-(*                      <= t < WinEnd(L), 1 <= n <= NB                                      *)
+(*                      < t <= WinEnd(L), 1 <= n <= NB                                      *)
 EXTENDS Integers, Sequences, FiniteSets, TLC, SequencesExt
 
 \* level sizes and bucket count are VARIABLES that never change, only so that one trace
@@ -55,7 +56,8 @@ OAdd(t, v) == Tell(t) /\ obs' = Append(obs, <<t, v>>)
 OClock(now) == Tell(now) /\ UNCHANGED obs           \* Latest reads the clock
 
 ---------------------------------------------------------------------------
-SumIn(os, a, b) == FoldLeft(LAMBDA acc, o : IF a <= o[1] /\ o[1] < b THEN acc + o[2] ELSE acc, 0, os)
+\* the observations of the buckets between the boundaries a and b: a < t <= b
+SumIn(os, a, b) == FoldLeft(LAMBDA acc, o : IF a < o[1] /\ o[1] <= b THEN acc + o[2] ELSE acc, 0, os)
 SumAll(os) == FoldLeft(LAMBDA acc, o : acc + o[2], 0, os)
 
 TotalExp(os) == SumAll(os)
@@ -68,12 +70,12 @@ Covering(m, a) == {L \in Levels : a >= WinStart(m, L)}
 LevelFor(m, a) == CHOOSE L \in Covering(m, a) : \A K \in Covering(m, a) : L <= K
 
 RangeJudgedAt(sn, cl, m, a, b) ==
-    /\ sn /\ cl /\ a <= b
+    /\ sn /\ a <= b
     /\ Covering(m, a) # {}
     /\ LET L == LevelFor(m, a) IN a % Sizes[L] = 0 /\ b % Sizes[L] = 0
 RangeExpOf(os, a, b) == SumIn(os, a, b)
 
-LatestJudgedAt(sn, cl, n) == sn /\ cl /\ n >= 1 /\ n <= NB
+LatestJudgedAt(sn, cl, n) == sn /\ n >= 1 /\ n <= NB
 LatestExpOf(os, m, L, n) == SumIn(os, WinEnd(m, L) - n * Sizes[L], WinEnd(m, L))
 
 \* on the current state
